@@ -821,6 +821,8 @@ func (g *gen) matcher() gm {
 	m := gm{mt: mt{op: g.r.IntN(4), name: g.name()}}
 	if m.op < 2 {
 		m.value = g.value()
+	} else if g.chance(15) {
+		m.value, m.cands = g.anchorPattern(false) // ^ $ | ( ) in values through the printer and the parsers
 	} else {
 		m.value, m.ast, m.lit = g.regexValue(false)
 	}
